@@ -39,8 +39,8 @@ type c10Err struct{ k int }
 func (e c10Err) Error() string { return "E" + strconv.Itoa(e.k) }
 
 const (
-	c10HangMax   = 8 * time.Second
-	c10SettleMax = 2 * time.Second
+	c10HangMax   = 4 * time.Second
+	c10SettleMax = 1500 * time.Millisecond
 )
 
 func c10Script(s string) []string {
@@ -586,11 +586,24 @@ func c10Random(r *verifh.Rng) c10Cfg {
 		if d.gx >= 0 && d.ctx == "none" {
 			d.ctx = "can"
 		}
-		if c10SafeStall(d) {
+		if c10SafeStall(d) && c10ReducerWrites(d) <= 2 {
 			c = d
 		}
 	}
 	return c
+}
+
+// c10ReducerWrites counts the reducer's writes.  A reducer must write at most once; the second write is
+// answered by the library's panic in the caller, a third one blocks forever because nobody reads the
+// output any more (outside the property: "the reducer's single output").
+func c10ReducerWrites(c c10Cfg) int {
+	k := 0
+	for _, a := range c.r {
+		if a[0] == 'w' {
+			k++
+		}
+	}
+	return k
 }
 
 func c10Gen(r *verifh.Rng) []verifh.Section {
